@@ -66,6 +66,12 @@ def r3_const_uses(toks, const_names, self_is_bnum, log):
             # find the path head
             j = i - 2
             head = toks[j]
+            if head == '>>' and i >= 6 and toks[i - 6] == '<' and toks[i - 5] in BNUM_TYPES and toks[i - 4] == '<' and (i < 7 or toks[i - 7] != '::'):
+                # qualified form `< BUintD32 < M >> :: BITS` (rustc prints `>>` as one token)
+                out += ['(', ')']
+                log['R3'] = log.get('R3', 0) + 1
+                i += 1
+                continue
             if head == '>' and i >= 4 and toks[i - 4:i - 1] == ['<', 'Self', '>'] and (i < 5 or toks[i - 5] != '::'):
                 # qualified-self form `< Self > :: X` (as produced by `<$ty>::ONE` in macros)
                 j = i - 3
